@@ -87,6 +87,8 @@ def run(index, rep, db=None):
     rep.note_analysed("optimizer_templates", len(db.templates))
     rep.guard(scale, db, rep)
     rep.guard(sign, db, rep)
+    rep.guard(decisions_scale_free, db, rep)
+    rep.guard(waste, db, rep)
     return db
 
 
@@ -108,6 +110,68 @@ def scale(db, rep):
                       "constraint is not homogeneous in (supplies, population): scaling every supply and the population by "
                       f"the same factor changes it (term degrees {degs})", loc=OPT, detail=str(c)[:300])
     rep.require_min(rule, 60)
+
+
+def decisions_scale_free(db, rep):
+    """which constraints the to-humans programme contains must not depend on the absolute size of a degree-1 quantity: a test such
+    as `POP < 1e7` on the way to a constraint makes a country's programme change when population and supplies are scaled together"""
+    rule = "C12.SCALE"
+    seen = set()
+    n = 0
+    for t in db.templates:
+        if t.aborted or t.opt_type != "to_humans":
+            continue
+        for key, val in t.decisions.items():
+            pe = t.interp.pred_exprs.get(key)
+            if pe is None or key in seen:
+                continue
+            seen.add(key)
+            if any(a in ("M", "N") for a in pe[0].atoms()):
+                continue  # which month it is: structural, not a size
+            n += 1
+            ok, degs = homogeneous(pe[0], t.opt_type)
+            rep.check(ok, rule, f"{t.entry}:decision `{key[:60]}`",
+                      f"the to-humans programme is built differently depending on `{key}`, which compares quantities of different scaling degree "
+                      f"{degs} (an absolute size threshold): scaling population and supplies by a common factor changes the programme", loc=OPT)
+    rep.note_analysed("data_dependent_decisions_in_to_humans_templates", n)
+
+
+def waste(db, rep):
+    """more waste never feeds more people: in every to-humans constraint, written `expr <= 0` / `expr == 0` with the ledger's own
+    orientation, the gross-up factor on what people eat is non-decreasing in each retail-waste percentage"""
+    from .rat import rat_derivative, derivative_sign
+    rule = "C12.WASTE"
+    seen = set()
+    n = 0
+    for t in db.templates:
+        if t.aborted or t.opt_type != "to_humans":
+            continue
+        for name, c in t.constraints:
+            if not isinstance(c, Cmp):
+                continue
+            try:
+                coeffs, const = c.expr.linear_in_vars()
+            except Exception:
+                continue
+            for v, cv in coeffs.items():
+                watoms = [a for a in cv.atoms() if isinstance(a, K) and "WASTE" in ".".join(a.path).upper()]
+                for w in watoms:
+                    key = (t.entry, name, v.family, ".".join(w.path), str(cv))
+                    if key in seen:
+                        continue
+                    seen.add(key)
+                    n += 1
+                    # |coefficient| of the eaten variable must grow with the waste percentage: d|cv|/dw >= 0
+                    sg = rat_sign(cv, ranges)
+                    d = rat_derivative(cv, w)
+                    sd = derivative_sign(cv, w, ranges)
+                    ok = (sg == "+" and sd in ("+", "+0", "0")) or (sg == "-" and sd in ("-", "-0", "0"))
+                    rep.check(ok, rule, f"{t.entry}:{name}|{v.family} x f({'.'.join(w.path)})",
+                              f"the amount drawn from the supply per unit eaten ({cv}) does not grow with the waste percentage {'.'.join(w.path)}: "
+                              "lowering waste would feed fewer people", loc=OPT, detail=f"d/dw = {d}")
+    if n < 5:
+        raise AnalysisError(f"C12.WASTE: only {n} waste-dependent coefficients found")
+    rep.require_min(rule, 5)
 
 
 def sign(db, rep):
